@@ -681,3 +681,11 @@ func (e *EventTable) Decl() string {
 	ctors = append(ctors, "(ev_none)")
 	return "(declare-datatypes ((Event 0)) ((" + strings.Join(ctors, " ") + ")))\n"
 }
+
+// cardFn declares the cardinality function of key sets (Array K Bool) with the axioms a counting loop needs.
+func (b *Builder) cardFn(ks string) string {
+	fn := b.declFun("card:"+ks, []string{"(Array " + ks + " Bool)"}, "Int")
+	b.rawDecl("cardax:"+ks, fmt.Sprintf("(assert (forall ((s (Array %s Bool))) (! (and (>= (%s s) 0) (=> (= (%s s) 0) (= s ((as const (Array %s Bool)) false)))) :pattern ((%s s)))))\n(assert (= (%s ((as const (Array %s Bool)) false)) 0))\n"+
+		"(assert (forall ((s (Array %s Bool)) (k %s)) (! (= (%s (store s k true)) (+ (%s s) (ite (select s k) 0 1))) :pattern ((%s (store s k true))))))", ks, fn, fn, ks, fn, fn, ks, ks, ks, fn, fn, fn))
+	return fn
+}
